@@ -293,9 +293,9 @@ def speed_alternatives(pts, svs, t):
     if not cand:
         return [(bpm, 1.0)]
     tmax = max(s[0] for s in cand)
+    # An SV exactly on a tempo point is active from that time on ("an SV lasts until the NEXT SV or tempo point"; the
+    # implementation's own comment gives a real SV precedence over the implicit reset).  Two SVs at one time: either.
     mults = {s[1] for s in cand if s[0] == tmax}
-    if tmax == tb:
-        mults.add(1.0)  # SV exactly on the tempo point: precedence left open
     return [(bpm, x) for x in mults]
 
 
